@@ -171,7 +171,8 @@ def build_ann(s, env, spelling=None, preds=None):
         return typing.Any if sp.get("obj") == "any" else object
     if k == "union":
         how = sp.get("union", "typing")
-        members = [build_ann(x, env, {"union": "ovld"} if how == "ovld" else None, preds) for x in s[1]]
+        members = [build_ann(x, env, ({"union": "ovld", "inter": sp.get("inter")} if how == "ovld" else None), preds)
+                   for x in s[1]]
         if how == "optional":
             rest = [m for m in members if m is not type(None)]
             return typing.Optional[rest[0]] if len(rest) == 1 else typing.Optional[typing.Union[tuple(rest)]]
@@ -190,9 +191,19 @@ def build_ann(s, env, spelling=None, preds=None):
         return typing.Union[tuple(members)]
     if k == "inter":
         # Intersection[...] does not normalise its arguments: nested unions are written with ovld's own Union
-        return T.Intersection[
-            tuple(T.normalize_type(build_ann(x, env, {"union": "ovld"}, preds), None) for x in s[1])
-        ]
+        amp = sp.get("inter") == "amp"
+        inner_sp = {"union": "ovld", "inter": "amp"} if amp else {"union": "ovld"}
+        members = [T.normalize_type(build_ann(x, env, inner_sp, preds), None) for x in s[1]]
+        if amp:
+            # the `A & B` spelling (ovld's types define & / reflected &)
+            try:
+                out = members[0]
+                for m in members[1:]:
+                    out = out & m
+                return out
+            except TypeError:
+                pass
+        return T.Intersection[tuple(members)]
     if k == "exactly":
         return T.Exactly[env[s[1]]]
     if k == "strict":
